@@ -24,14 +24,36 @@ SNode, DN, Ty = tg.SNode, tg.DN, tg.Ty
 # ----------------------------------------------------------------------------------------------------------------
 
 class XSchema(tg.Schema):
-    """tg.Schema + `uniques` on list nodes: sn.uniques = [[leaf SNode, ...], ...]"""
+    """tg.Schema + `uniques` on list nodes: sn.uniques = [[leaf SNode, ...], ...]
+    + the XPath-dependent statements (C02 `valx`): sn.musts = [expression text, ...] on any data node, sn.lref = path text on a leaf
+    (type leafref, require-instance true; sn.ty stays the base type of the target, so the flat DSL is unchanged), sn.when = expression
+    text.  Expressions use unprefixed names and no double quote / backslash.  `when` lines go into the extension DSL only for schemas
+    marked `self.xp = True` (the law-only `when` schemas of C07 keep their extension DSL)."""
+    xp = False
+    xpmask = None
 
     def xdsl(self):
         L = []
         for n in self.nodes:
             for u in getattr(n, "uniques", []):
                 L.append("unique %d %s" % (n.sid, ",".join(str(l.sid) for l in u)))
+        for n in self.nodes:
+            for m in getattr(n, "musts", []):
+                L.append("must %d %s" % (n.sid, tg.hx(m.encode("utf-8"))))
+        for n in self.nodes:
+            if getattr(n, "lref", None):
+                L.append("leafref %d %s" % (n.sid, tg.hx(n.lref.encode("utf-8"))))
+        if self.xp:
+            for n in self.nodes:
+                if getattr(n, "when", None):
+                    L.append("when %d %s" % (n.sid, tg.hx(n.when.encode("utf-8"))))
+            if self.xpmask is not None:
+                # the deviations of libyang's XPath engine the model has to mirror (XPath.Quirks mask, c08.live_mask); absent = all on
+                L.append("xpmask %d" % self.xpmask)
         return "\n".join(L).encode()
+
+    def has_xpath(self):
+        return any(getattr(n, "musts", None) or getattr(n, "lref", None) or (self.xp and getattr(n, "when", None)) for n in self.nodes)
 
     @staticmethod
     def rel_path(lst, leaf):
@@ -64,7 +86,12 @@ class XSchema(tg.Schema):
             if getattr(n, "when", None):
                 out.append('%swhen "%s";' % (q2, n.when))      # law-only schemas (the model has no XPath)
             if n.kind in ("leaf", "leaflist"):
-                out.append(q2 + n.ty.yang())
+                if getattr(n, "lref", None):
+                    out.append('%stype leafref { path "%s"; }' % (q2, n.lref))
+                else:
+                    out.append(q2 + n.ty.yang())
+            for m in getattr(n, "musts", []):
+                out.append('%smust "%s";' % (q2, m))
             if n.kind not in ("case",) and n.config != pconfig:
                 out.append("%sconfig %s;" % (q2, "true" if n.config else "false"))
             if n.kind in ("list", "leaflist"):
@@ -92,8 +119,9 @@ class XSchema(tg.Schema):
         return "\n".join(out) + "\n"
 
 
-def gen_schema_x(rng, idx, max_depth=3, defaults=True, top_mand=0.25, uniques=0.4, prefix="vx"):
-    """A random member of S1x.  Module names have >= 3 characters (LYB hash exhaustion, F27)."""
+def gen_schema_x(rng, idx, max_depth=3, defaults=True, top_mand=0.25, uniques=0.4, prefix="vx", xpath=0.0):
+    """A random member of S1x.  Module names have >= 3 characters (LYB hash exhaustion, F27).
+    xpath > 0: with that probability the schema is decorated with must statements and leafrefs (decorate_xpath)."""
     nm = tg._Names()
     nomand = [0]          # > 0: directly below a default case (RFC 7950 7.9.3: no mandatory nodes there)
 
@@ -226,7 +254,10 @@ def gen_schema_x(rng, idx, max_depth=3, defaults=True, top_mand=0.25, uniques=0.
             if t.kind in ("list", "leaflist"):
                 t.min = 0
         top.append(t)
-    return XSchema("%s%d" % (prefix, idx), top)
+    s = XSchema("%s%d" % (prefix, idx), top)
+    if xpath and rng.random() < xpath:
+        decorate_xpath(rng, s, nmust=rng.randrange(1, 4), nlref=rng.randrange(0, 3))
+    return s
 
 
 def gen_schema_nested(rng, idx, prefix="vn"):
@@ -567,6 +598,24 @@ def fam_plain(rng, idx):
     return b.finish("plain", idx, top)
 
 
+def witness_f321():
+    """Witness of finding F321: `choice ch { case a { container n { leaf x; } } case b { leaf y; } }` with the instance [empty `n`
+    (created by the client: lyd_new_inner, `<n/>`), `y`].  A non-presence container without children has no meaning of its own
+    (RFC 7950 sec. 7.5.1): the instance is valid; libyang without fixes/F321.diff takes the empty container for data of case `a`
+    ("Data for both cases").  Returns (schema, forest)."""
+    import random
+    b = _Fam(random.Random(321))
+    x, y = b.leaf(), b.leaf()
+    x.ty = y.ty = Ty("string")
+    x.dflt = y.dflt = None
+    x.mandatory = y.mandatory = False
+    n = b.np([x])
+    ch = b.choice([b.case([n]), b.case([y])])
+    s = XSchema("vf321", [ch])
+    s.family = "f321-witness"
+    return s, [DN(n), DN(y, val=b"1")]
+
+
 class RawSchema:
     """a module given as YANG text, for requests only the harness sees (schema registration): `dsl()` is just the key the harness files
     the schema under, no model reads it"""
@@ -820,6 +869,349 @@ def directed_unique(rng, s, g, ns=(2, 2, 3, 3, 5)):
 
 
 # ----------------------------------------------------------------------------------------------------------------
+# XPath-dependent constraints: must, leafref (require-instance), when  (C02 op `valx`)
+#
+# Expressions are ASTs of checks/xpcomp.py (the C08 component) rendered with its `render`; the generator below is the type-directed
+# generator of C08 cut down to what a must over an S1x schema needs: paths with parent / child / self steps that follow the schema
+# from the context node to a nearby target, simple predicates on list steps, comparisons with literals of the target's type, count,
+# not, boolean, string-length / starts-with / contains, and / or.  Names are unprefixed (one module); literals have no quote, no
+# backslash, no control character, so the text can stand inside a double-quoted YANG string as it is.
+# ----------------------------------------------------------------------------------------------------------------
+
+def data_chain(n):
+    """the data ancestors of a schema node from the top down, the node last (choices and cases have no data path step)"""
+    out, p = [], n
+    while p is not None:
+        if p.is_data():
+            out.append(p)
+        p = p.parent
+    return out[::-1]
+
+
+def rel_route(ctx, tgt):
+    """(number of parent steps, [schema nodes to descend through]) from the data node `ctx` to `tgt`"""
+    a, b = data_chain(ctx), data_chain(tgt)
+    i = 0
+    while i < len(a) and i < len(b) and a[i] is b[i]:
+        i += 1
+    return len(a) - i, b[i:]
+
+
+def safe_literals(sn, key=False):
+    """values of the node's type that can stand in a single-quoted XPath literal inside a double-quoted YANG string"""
+    out = []
+    for v in sn.ty.pool(key):
+        try:
+            s = v.decode("ascii")
+        except UnicodeDecodeError:
+            continue
+        if s and all(c not in "'\"\\" and " " <= c <= "~" for c in s) and s == s.strip():
+            out.append(s)
+    return out
+
+
+# string-length() counts UTF-8 characters in libyang since F41 was repaired; the Lean engine counts bytes while bit 3 of its quirk
+# mask is on (must "string-length(../a) = 1", a = 'é').  The check sends the live mask of C08 with the schema (`xpmask` line of the
+# extension DSL), so the function is generated.
+XP_STRING_LENGTH = True
+
+
+class XpGen:
+    """boolean expressions for `must` / `when` on a context schema node.  gen(ctx) -> (text, deps); deps = [(target schema node,
+    literal | None)]: what the expression looks at (used by the mutation break-must)."""
+
+    def __init__(self, rng, schema):
+        from checks import xpcomp
+        self.rng, self.s, self.X = rng, schema, xpcomp
+
+    # ---- targets near the context node
+    def targets(self, ctx, no_self=False):
+        """data schema nodes the context may look at: own children, siblings, children of sibling containers / lists, uncles, and any
+        top-level subtree (absolute path); a configuration context only looks at configuration nodes"""
+        near, far = [], []
+        par = ctx.data_parent()
+        sibs = self.s.data_kids(par)
+        for k in sibs:
+            if k is not ctx:
+                near.append(k)
+                if k.is_inner():
+                    near += k.data_kids()
+        if ctx.is_inner():
+            near += ctx.data_kids()
+        if par is not None:
+            far += [k for k in self.s.data_kids(par.data_parent()) if k is not par]
+        for n in self.s.nodes:
+            if n.is_data() and n.depth <= 2 and n is not ctx:
+                far.append(n)
+        ok = lambda n: (n.config or not ctx.config) and not getattr(n, "when", None)
+        near, far = [n for n in near if ok(n)], [n for n in far if ok(n)]
+        return near, far
+
+    def pick(self, ctx, kinds=None):
+        near, far = self.targets(ctx)
+        if kinds:
+            near, far = [n for n in near if n.kind in kinds], [n for n in far if n.kind in kinds]
+        pool = near if near and (self.rng.random() < 0.8 or not far) else far
+        return self.rng.choice(pool) if pool else None
+
+    # ---- paths
+    def path(self, ctx, tgt, preds=True, deps=None):
+        X, r = self.X, self.rng
+        ups, downs = rel_route(ctx, tgt)
+        steps = []
+        absolute = r.random() < 0.15 and not any(a.kind == "list" for a in data_chain(ctx)[:-1] if a in data_chain(tgt))
+        if absolute:
+            downs = data_chain(tgt)
+        else:
+            steps = [X.st(X.NODE, axis="parent") for _ in range(ups)]
+        for sn in downs:
+            pr = []
+            if preds and sn.kind == "list" and r.random() < 0.35:
+                leaves = [k for k in sn.data_kids() if k.kind == "leaf" and k.ty.name != "empty" and safe_literals(k, k.iskey)
+                          and (k.config or not ctx.config)]
+                if leaves:
+                    k = r.choice(leaves)
+                    v = r.choice(safe_literals(k, k.iskey))
+                    pr = [X.bop("eq", X.relp(X.st(("n", None, k.name))), self.lit(k, v))]
+                    if deps is not None:
+                        deps.append((k, v))
+            steps.append(X.st(("n", None, sn.name), preds=pr))
+        return ("path", "R" if absolute else "C", steps)
+
+    def lit(self, sn, v):
+        X = self.X
+        if sn.ty.name in tg.INT_POOL and self.rng.random() < 0.7:
+            i = int(v)
+            return X.num(i) if i >= 0 else ("neg", X.num(-i))
+        return X.lit(v)
+
+    # ---- atoms
+    def atom(self, ctx, deps):
+        X, r = self.X, self.rng
+        tgt = self.pick(ctx)
+        if tgt is None:
+            return X.fn("true")
+        P = self.path(ctx, tgt, deps=deps)
+        x = r.random()
+        if tgt.kind == "leaf":
+            lits = safe_literals(tgt, tgt.iskey)
+            if x < 0.55 and lits and tgt.ty.name != "empty":
+                v = r.choice(lits)
+                deps.append((tgt, v))
+                ops = ["eq", "ne"] + (["lt", "le", "gt", "ge"] if tgt.ty.name in tg.INT_POOL else [])
+                e = X.bop(r.choice(ops), P, self.lit(tgt, v))
+                return X.fn("not", e) if r.random() < 0.25 else e
+            if x < 0.72 and tgt.ty.name == "string":
+                deps.append((tgt, None))
+                y = r.random()
+                if y < 0.5 and XP_STRING_LENGTH:
+                    return X.bop(r.choice(["lt", "le", "gt", "ge", "eq"]), X.fn("string-length", P), X.num(r.choice([0, 1, 2, 3])))
+                return X.fn(r.choice(["starts-with", "contains"]), P, X.lit(r.choice(["a", "b", "1", "x", "0"])))
+            if x < 0.8:
+                # leaf against another leaf of the same base type
+                other = [n for n in self.targets(ctx)[0] if n.kind == "leaf" and n is not tgt and n.ty.name == tgt.ty.name and n.ty.name != "empty"]
+                if other:
+                    o = r.choice(other)
+                    deps += [(tgt, None), (o, None)]
+                    return X.bop(r.choice(["eq", "ne"]), P, self.path(ctx, o, deps=deps))
+            deps.append((tgt, None))
+            return P if r.random() < 0.5 else X.fn(r.choice(["not", "not", "boolean"]), P)
+        if tgt.kind in ("leaflist", "list"):
+            deps.append((tgt, None))
+            if x < 0.6:
+                return X.bop(r.choice(["lt", "le", "gt", "ge", "eq", "ne"]), X.fn("count", P), X.num(r.choice([0, 1, 1, 2, 3, 4])))
+            if x < 0.8 and tgt.kind == "leaflist" and safe_literals(tgt):
+                v = r.choice(safe_literals(tgt))
+                deps.append((tgt, v))
+                e = X.bop("eq", P, self.lit(tgt, v))
+                return X.fn("not", e) if r.random() < 0.5 else e
+            if x < 0.9 and tgt.kind == "list":
+                leaves = [k for k in tgt.data_kids() if k.kind == "leaf" and k.ty.name != "empty" and safe_literals(k, k.iskey)
+                          and (k.config or not ctx.config)]
+                if leaves:
+                    k = r.choice(leaves)
+                    v = r.choice(safe_literals(k, k.iskey))
+                    deps.append((k, v))
+                    P2 = ("path", P[1], P[2] + [X.st(("n", None, k.name))])
+                    return X.bop(r.choice(["eq", "ne"]), P2, self.lit(k, v))
+            return X.fn("not", P) if r.random() < 0.6 else X.fn("boolean", P)
+        # container
+        deps.append((tgt, None))
+        return P if r.random() < 0.5 else X.fn("not", P)
+
+    def expr(self, ctx, depth, deps):
+        X, r = self.X, self.rng
+        if depth <= 0 or r.random() < 0.55:
+            return self.atom(ctx, deps)
+        a, b = self.expr(ctx, depth - 1, deps), self.expr(ctx, depth - 1, deps)
+        e = X.bop(r.choice(["and", "or", "or"]), a, b)
+        return X.fn("not", e) if r.random() < 0.1 else e
+
+    def gen(self, ctx, depth=2):
+        deps = []
+        e = self.expr(ctx, depth, deps)
+        if e[0] == "path" or e[0] in ("lit", "num"):
+            pass
+        text = self.X.render(e)
+        assert '"' not in text and "\\" not in text, text
+        return text, deps
+
+
+def leafref_route(rng, leaf, tgt, kref=None):
+    """path text of a leafref from `leaf` to the leaf `tgt`: relative (../..) or absolute; with `kref` (a sibling leaf of `leaf`) a key
+    predicate `[k = current()/../kref]` on the last list step.  -> (text, route); route = (ups | None, downs, (list, key, kref) | None)"""
+    ups, downs = rel_route(leaf, tgt)
+    in_list = any(a.kind == "list" for a in data_chain(leaf)[:-1] if a in data_chain(tgt))
+    absolute = not in_list and rng.random() < 0.35
+    if absolute:
+        ups, downs = None, data_chain(tgt)
+    pred = None
+    if kref is not None:
+        lists = [sn for sn in downs[:-1] if sn.kind == "list" and len(sn.keys) == 1]
+        if lists:
+            lst = lists[-1]
+            pred = (lst, lst.kids[0], kref)
+    names = []
+    for sn in downs:
+        names.append(sn.name + ("[%s = current()/../%s]" % (pred[1].name, kref.name) if pred and sn is pred[0] else ""))
+    text = ("/" if ups is None else "../" * ups) + "/".join(names)
+    return text, (ups, downs, pred)
+
+
+def make_leafref(leaf, tgt, text, route):
+    import copy
+    leaf.ty = copy.deepcopy(tgt.ty)
+    leaf.dflt = None
+    leaf.lref, leaf.lref_target, leaf.lref_route = text, tgt, route
+
+
+def has_implicit(n):
+    """does validation create the node by itself: leaf with a default, leaf-list with defaults, non-presence container with such below"""
+    if n.kind == "leaf":
+        return n.dflt is not None
+    if n.kind == "leaflist":
+        return bool(n.dflts)
+    if n.np_cont():
+        return any(has_implicit(k) or (k.kind in ("choice", "case") and any(has_implicit(x) for x in k.data_kids())) for k in n.kids)
+    return False
+
+
+def decorate_xpath(rng, s, nmust=2, nlref=1, nwhen=0):
+    """put `nlref` leafrefs, `nmust` must statements (and `nwhen` when statements) on nodes of the finished schema `s`.
+    Leafrefs: an existing plain leaf (no key, no default, no unique target) becomes a leafref to a configuration-compatible leaf or key
+    outside its own subtree; sometimes a second leaf next to it becomes the key reference of a predicate."""
+    s.xp = True
+    uniq = {id(l) for n in s.nodes for u in getattr(n, "uniques", []) for l in u}
+    used = set()          # targets and key references: they stay what they are
+    # (not a mandatory leaf: without any target instance the repair step of the instance generator could only leave it dangling)
+    plain = lambda n: (n.kind == "leaf" and not n.iskey and not n.mandatory and id(n) not in uniq and id(n) not in used
+                       and not getattr(n, "lref", None) and not getattr(n, "when", None))
+    for _ in range(nlref):
+        srcs = [n for n in s.nodes if plain(n)]
+        rng.shuffle(srcs)
+        for src in srcs:
+            tgts = [n for n in s.nodes if n.kind == "leaf" and n is not src and n.ty.name != "empty" and not getattr(n, "lref", None)
+                    and (n.config or not src.config) and not getattr(n, "when", None) and rel_route(src, n)[0] >= 1
+                    and not any(getattr(a, "when", None) for a in data_chain(n))]
+            # prefer keys and leaves of lists (the classic use), then any leaf
+            pref = [n for n in tgts if n.iskey or (n.data_parent() is not None and n.data_parent().kind == "list")]
+            if not tgts:
+                continue
+            tgt = rng.choice(pref) if pref and rng.random() < 0.8 else rng.choice(tgts)
+            used.add(id(tgt))
+            kref = None
+            par = tgt.data_parent()
+            if not tgt.iskey and par is not None and par.kind == "list" and len(par.keys) == 1 and par not in data_chain(src) and rng.random() < 0.75:
+                # a sibling of src becomes a leafref to the key, src selects the entry through it
+                cand = [n for n in s.data_kids(src.data_parent()) if n is not src and plain(n) and n.config == src.config and n is not tgt]
+                if cand:
+                    kref = rng.choice(cand)
+                    key = par.kids[0]
+                    used.add(id(key))
+                    make_leafref(kref, key, *leafref_route(rng, kref, key))
+            make_leafref(src, tgt, *leafref_route(rng, src, tgt, kref))
+            break
+    g = XpGen(rng, s)
+    ctxs = [n for n in s.nodes if n.is_data() and not getattr(n, "when", None)]
+    for _ in range(nmust):
+        ctx = rng.choice(ctxs)
+        text, deps = g.gen(ctx, depth=rng.choice([0, 1, 1, 2]))
+        ctx.musts = getattr(ctx, "musts", []) + [text]
+        ctx.must_deps = getattr(ctx, "must_deps", []) + [deps]
+    # one node of every schema carries 2-3 musts (statement order = order of the `must` lines): the FIRST holds whenever the node exists, the
+    # LAST is a comparison with a sibling leaf the generator controls (break-must / last-must-false set that leaf to the literal), so that
+    # "a later must fails while the first holds" is frequent
+    def controlled(n):
+        return [k for k in s.data_kids(n.data_parent()) if k is not n and k.kind == "leaf" and not k.iskey and k.ty.name != "empty"
+                and safe_literals(k) and (k.config or not n.config) and not getattr(k, "when", None) and not getattr(k, "lref", None)]
+    multi = [n for n in ctxs if controlled(n)]
+    if multi and nmust:
+        have = [n for n in multi if getattr(n, "musts", None)]
+        ctx = rng.choice(have) if have and rng.random() < 0.6 else rng.choice(multi)
+        k = rng.choice(controlled(ctx))
+        v = rng.choice(safe_literals(k))
+        X = g.X
+        P = g.path(ctx, k, preds=False)
+        last = X.bop("ne", P, g.lit(k, v))
+        if rng.random() < 0.3:
+            last = X.fn("not", X.bop("eq", P, g.lit(k, v)))
+        first = rng.choice(["boolean(.)", "count(..) = 1", "count(.) = 1", "not(false())", "true()"] + ([". = ."] if ctx.is_term() else []))
+        mid = list(zip(getattr(ctx, "musts", []), getattr(ctx, "must_deps", [])))[:1]
+        ctx.musts = [first] + [m for m, _ in mid] + [X.render(last)]
+        ctx.must_deps = [[]] + [d for _, d in mid] + [[(k, v)]]
+        ctx.must_last = (k, v)
+    for _ in range(nwhen):
+        cand = [n for n in s.nodes if n.is_data() and not n.iskey and not getattr(n, "when", None) and not getattr(n, "mandatory", False)
+                and not (n.kind in ("list", "leaflist") and n.min) and id(n) not in uniq and not getattr(n, "lref", None)
+                and id(n) not in used]
+        # carriers that validation creates by itself: leaf with a default, leaf-list with defaults, non-presence container with default
+        # descendants -> created with LYD_WHEN_TRUE while the condition holds, created and auto-deleted while it does not
+        dfl = [n for n in cand if has_implicit(n)]
+        if dfl and rng.random() < 0.6:
+            cand = dfl
+        if cand:
+            ctx = rng.choice(cand)
+            # the context node of a when is the node itself (may not exist): look at siblings / ancestors only
+            sib = [k for k in s.data_kids(ctx.data_parent()) if k is not ctx and k.kind == "leaf" and k.ty.name != "empty"
+                   and safe_literals(k) and (k.config or not ctx.config) and not getattr(k, "when", None)]
+            if sib:
+                k = rng.choice(sib)
+                v = rng.choice(safe_literals(k))
+                ctx.when = "../%s %s '%s'" % (k.name, rng.choice(["=", "!="]), v)
+                ctx.when_deps = [(k, v)]
+    return s
+
+
+def fam_xpath(rng, idx, nwhen=0):
+    """small schemas for the XPath-dependent constraints: a container with typed leaves, a leaf-list and a keyed list, an inner
+    container, and a top-level list; 1-3 musts, 1-2 leafrefs (relative to a sibling list's key, absolute into the container's list,
+    with a key predicate through a second leafref), `nwhen` whens"""
+    b = _Fam(rng)
+    sl = lambda: b.leaf(noempty=True, room=5)
+    lv, lw = sl(), b.leaf(dflt=rng.random() < 0.4, noempty=True)
+    l1 = b.lst(b.mixed([lv, lw]), hi=rng.choice([0, 0, 4]))
+    inner = b.np(b.mixed([sl(), b.leaf(dflt=rng.random() < 0.5, noempty=True), sl()]))
+    ckids = [sl(), sl(), b.leaf(dflt=True), b.ll(ndflt=rng.choice([0, 0, 1, 2])), l1, inner, sl()] + ([b.leaf(mand=True)] if rng.random() < 0.3 else [])
+    c = (b.pc if rng.random() < 0.6 else b.np)(b.mixed(ckids))
+    top = [c, b.lst(b.mixed([sl(), sl(), sl()])), sl()]
+    s = b.finish("xpath", idx, b.mixed(top))
+    return decorate_xpath(rng, s, nmust=rng.randrange(1, 4), nlref=rng.randrange(1, 3), nwhen=nwhen)
+
+
+FAMILY_PREFIX["xpath"] = "xq"
+# the last two are directed instances rather than mutations: the sibling leaf the last must of the multi-must node compares is set to
+# the literal (the first must holds, the last fails); the explicit instances of a when-carrier with defaults are removed (validation creates
+# the carrier itself: with LYD_WHEN_TRUE, or creates and auto-deletes it)
+XP_MUTATIONS = ["break-must", "break-leafref", "flip-when", "last-must-false", "when-implicit"]
+
+
+def xp_counts(s):
+    """(musts, leafrefs, leafrefs with a key predicate, whens) of a schema"""
+    return (sum(len(getattr(n, "musts", [])) for n in s.nodes), sum(1 for n in s.nodes if getattr(n, "lref", None)),
+            sum(1 for n in s.nodes if getattr(n, "lref", None) and n.lref_route[2]), sum(1 for n in s.nodes if s.xp and getattr(n, "when", None)))
+
+
+# ----------------------------------------------------------------------------------------------------------------
 # valid instances
 # ----------------------------------------------------------------------------------------------------------------
 
@@ -886,12 +1278,89 @@ class XTreeGen(tg.TreeGen):
     def tree(self):
         f = tg.canon(self.gen_level(self.s.top))
         self.fix_uniques(None, f)
+        if getattr(self.s, "xp", False):
+            self.fix_leafrefs(f)
+            f = prune_np(f) or f        # a dropped leafref may have been the only child of a non-presence container
         return f
 
     def edit(self, forest, rate=0.35):
         f = tg.TreeGen.edit(self, forest, rate)
         self.fix_uniques(None, f)
         return f
+
+    # ---- leafrefs: give every leafref instance the value of an existing target (no XPath evaluation: the paths are the three
+    # shapes leafref_route() writes, resolved over the explicit tree; whether the result is valid is for libyang and the model to say)
+    @staticmethod
+    def parents_of(forest):
+        par = {}
+
+        def walk(n, p):
+            par[id(n)] = p
+            for k in n.kids:
+                walk(k, n)
+        for n in forest:
+            walk(n, None)
+        return par
+
+    @staticmethod
+    def lref_resolve(forest, par, x, use_pred=True):
+        """the target instances of the leafref instance x; with use_pred=False the key predicate is ignored"""
+        ups, downs, pred = x.sn.lref_route
+        p = x
+        if ups is None:
+            p = None
+        else:
+            for _ in range(ups):
+                p = par[id(p)]
+        cur = [p]
+        for sn in downs:
+            nxt = []
+            for c in cur:
+                nxt += [k for k in (forest if c is None else c.kids) if k.sn is sn]
+            if pred and use_pred and sn is pred[0]:
+                xp_ = par[id(x)]
+                kr = [k for k in (forest if xp_ is None else xp_.kids) if k.sn is pred[2]]
+                nxt = [e for e in nxt if kr and e.kids and e.kids[0].val == kr[0].val]
+            cur = nxt
+        return cur
+
+    def fix_leafrefs(self, forest):
+        par = self.parents_of(forest)
+        refs = []
+
+        def walk(n):
+            if getattr(n.sn, "lref", None):
+                refs.append(n)
+            for k in n.kids:
+                walk(k)
+        for n in forest:
+            walk(n)
+        # plain ones first (the key references of the predicates among them), then the ones with a predicate
+        for x in sorted(refs, key=lambda x: x.sn.lref_route[2] is not None):
+            pred = x.sn.lref_route[2]
+            sibs = forest if par[id(x)] is None else par[id(x)].kids
+            if pred is None:
+                tg_ = self.lref_resolve(forest, par, x)
+                if tg_:
+                    x.val = self.rng.choice(tg_).val
+                elif not x.sn.mandatory:
+                    sibs.remove(x)
+                continue
+            ents = {}
+            for t_ in self.lref_resolve(forest, par, x, use_pred=False):
+                e = par[id(t_)]
+                while e is not None and e.sn is not pred[0]:
+                    e = par[id(e)]
+                if e is not None:
+                    ents.setdefault(id(e), (e, []))[1].append(t_)
+            kr = [k for k in sibs if k.sn is pred[2]]
+            if not ents or not kr:
+                if not x.sn.mandatory:
+                    sibs.remove(x)
+                continue
+            e, ts = self.rng.choice(list(ents.values()))
+            kr[0].val = e.kids[0].val
+            x.val = self.rng.choice(ts).val
 
     def fix_uniques(self, parent, sibs):
         """drop (or, at the minimum, re-key the values of) list instances whose unique tuple collides with an earlier one"""
@@ -1223,6 +1692,156 @@ class Mutator:
         x = self.rng.choice(cand)
         del x.kids[self.rng.randrange(len(x.sn.keys))]
         return {"sid": x.sn.sid}
+
+    # ---- XPath-dependent constraints.  No expression is evaluated here: the mutations disturb what a must / leafref looks at; whether
+    # the instance became invalid is decided by libyang and by the model.
+    def _instances(self, f, sn):
+        return [(p, sibs, x) for p, sk, sibs in levels(self.s, f) for x in sibs if x.sn is sn]
+
+    def m_break_must(self, f):
+        """change a leaf a must compares with (to the literal of the comparison, or away from it), delete it, or add / delete an
+        entry of a counted (leaf-)list"""
+        deps = [(n, d) for n in self.s.nodes for ds in getattr(n, "must_deps", []) for d in ds]
+        self.rng.shuffle(deps)
+        if self.rng.random() < 0.6:
+            # the LAST must of the node with several musts first
+            r = self.m_last_must_false(f)
+            if r is not None:
+                return r
+        for ctx, (tgt, lit) in deps:
+            inst = self._instances(f, tgt)
+            if tgt.kind == "leaf":
+                if not inst:
+                    continue
+                p, sibs, x = self.rng.choice(inst)
+                if getattr(tgt, "lref", None):
+                    continue
+                r = self.rng.random()
+                if r < 0.25 and not tgt.iskey and not tgt.mandatory:
+                    sibs.remove(x)
+                    return {"sid": tgt.sid, "how": "delete", "must_on": ctx.sid}
+                if tgt.iskey:
+                    continue
+                if lit is not None and x.val != lit.encode() and r < 0.7:
+                    x.val = lit.encode()
+                else:
+                    other = [v for v in tgt.ty.pool() if v != x.val]
+                    if not other:
+                        continue
+                    x.val = self.rng.choice(other)
+                return {"sid": tgt.sid, "how": "value", "must_on": ctx.sid}
+            if tgt.kind in ("leaflist", "list"):
+                if inst and (self.rng.random() < 0.5 or tgt.kind == "list" and not tgt.keys) and len(inst) > tgt.min:
+                    p, sibs, x = self.rng.choice(inst)
+                    sibs.remove(x)
+                    return {"sid": tgt.sid, "how": "delete-entry", "must_on": ctx.sid}
+                # add one next to the existing ones (or at every place the parent exists)
+                places = [(p, sk, sibs) for p, sk, sibs in levels(self.s, f) if any(sn is tgt for sn, ch in flat_schema_kids(sk))]
+                if not places:
+                    continue
+                p, sk, sibs = self.rng.choice(places)
+                have = [x for x in sibs if x.sn is tgt]
+                if tgt.max and len(have) >= tgt.max:
+                    continue
+                new = self.g.new_instance(tgt, have)
+                if new is None:
+                    continue
+                if lit is not None and tgt.kind == "leaflist" and all(h.val != lit.encode() for h in have):
+                    new.val = lit.encode()
+                sibs.append(new)
+                self._recanon(p, sibs)
+                return {"sid": tgt.sid, "how": "add-entry", "must_on": ctx.sid}
+            if tgt.kind == "container" and inst and self.rng.random() < 0.5:
+                p, sibs, x = self.rng.choice(inst)
+                sibs.remove(x)
+                return {"sid": tgt.sid, "how": "delete", "must_on": ctx.sid}
+        return None
+
+    def m_last_must_false(self, f):
+        """where the node with several musts exists, the sibling leaf its last must compares gets the literal (created if absent)"""
+        lasts = [n for n in self.s.nodes if getattr(n, "must_last", None)]
+        self.rng.shuffle(lasts)
+        for ctx in lasts:
+            k, v = ctx.must_last
+            places = [(p, sibs) for p, sk, sibs in levels(self.s, f) if any(x.sn is ctx for x in sibs)]
+            if not places:
+                continue
+            p, sibs = self.rng.choice(places)
+            have = [x for x in sibs if x.sn is k]
+            if have and all(x.val == v.encode() for x in have):
+                continue
+            if have:
+                have[0].val = v.encode()
+            else:
+                sibs.append(DN(k, v.encode()))
+                self._recanon(p, sibs)
+            return {"sid": k.sid, "how": "last-must", "must_on": ctx.sid}
+        return None
+
+    def m_when_implicit(self, f):
+        """remove every explicit instance of a when-carrier that validation creates by itself"""
+        car = [n for n in self.s.nodes if getattr(n, "when", None) and has_implicit(n)]
+        done = []
+        for n in car:
+            for p, sibs, x in self._instances(f, n):
+                if x in sibs:
+                    sibs.remove(x)
+                    done.append(n.sid)
+        return {"sids": sorted(set(done)), "how": "carrier-removed"} if done else None
+
+    def m_flip_when(self, f):
+        """the leaf a when condition compares: set to the literal of the comparison, to another value, or removed"""
+        deps = [(n, d) for n in self.s.nodes for d in getattr(n, "when_deps", [])]
+        self.rng.shuffle(deps)
+        for ctx, (tgt, lit) in deps:
+            inst = self._instances(f, tgt)
+            if not inst:
+                continue
+            p, sibs, x = self.rng.choice(inst)
+            r = self.rng.random()
+            if r < 0.2 and not tgt.mandatory and not tgt.iskey:
+                sibs.remove(x)
+                return {"sid": tgt.sid, "how": "delete", "when_on": ctx.sid}
+            if tgt.iskey or getattr(tgt, "lref", None):
+                continue
+            if x.val != lit.encode() and r < 0.7:
+                x.val = lit.encode()
+            else:
+                other = [v for v in tgt.ty.pool() if v != x.val]
+                if not other:
+                    continue
+                x.val = self.rng.choice(other)
+            return {"sid": tgt.sid, "how": "value", "when_on": ctx.sid}
+        return None
+
+    def m_break_leafref(self, f):
+        """a leafref value no instance of the target carries, or the target instance(s) with that value deleted"""
+        refs = [(p, sibs, x) for p, sk, sibs in levels(self.s, f) for x in sibs if getattr(x.sn, "lref", None)]
+        self.rng.shuffle(refs)
+        for p, sibs, x in refs:
+            tgt = x.sn.lref_target
+            tinst = self._instances(f, tgt)
+            have = {t.val for _, _, t in tinst}
+            free = [v for v in tgt.ty.pool(tgt.iskey) if v not in have]
+            if free and self.rng.random() < 0.6:
+                x.val = self.rng.choice(free)
+                return {"sid": x.sn.sid, "how": "dangling-value"}
+            same = [(tp, ts, t) for tp, ts, t in tinst if t.val == x.val]
+            if not same:
+                continue
+            if tgt.iskey:
+                # the entries with that key go
+                for tp, ts, t in same:
+                    for gp, gs, e in self._instances(f, tp.sn):
+                        if e is tp and e in gs:
+                            gs.remove(e)
+                return {"sid": x.sn.sid, "how": "delete-target-entry"}
+            if tgt.mandatory:
+                continue
+            for tp, ts, t in same:
+                ts.remove(t)
+            return {"sid": x.sn.sid, "how": "delete-target"}
+        return None
 
     def m_state_node(self, f):
         """not a mutation of the instance: the instance has a state node and is validated with LYD_VALIDATE_NO_STATE"""
